@@ -181,6 +181,15 @@ def check(prop, tier):
     for f in fams: need += cfgnames[f]
     paths = dict(zip(need, build_cuts(need)))
     jobs = []; meta = []
+    # replay tier: saved failing cases (regress/<prop>.jsonl) are evaluated first by worker 0 of their clause
+    pre = {}
+    rp = os.path.join(ROOT, 'regress', prop + '.jsonl')
+    if os.path.exists(rp):
+        by = {}
+        for l in open(rp):
+            if l.strip(): e = json.loads(l); by.setdefault(e['clause'], []).append(','.join(str(x) for x in e['args']))
+        for cid, lines in by.items():
+            pre[cid] = os.path.join(work, cid + '.pre'); open(pre[cid], 'w').write('\n'.join(lines) + '\n')
     for c in spec['clauses']:
         fam = c.get('family', 'R')
         sos = [paths[n] for n in cfgnames[fam]]
@@ -190,6 +199,7 @@ def check(prop, tier):
         for w in range(nw):
             out = os.path.join(work, '%s.%d.json' % (c['id'], w))
             argv = [exe, 'run', c['id'], '--tier', tier, '--seed', str(seed), '--worker', str(w), '--nworkers', str(nw), '--n', str(per), '--out', out, '--kf', kf_txt] + sos
+            if w == 0 and c['id'] in pre: argv[3:3] = ['--pre', pre[c['id']]]
             jobs.append((argv, out + '.log', t.get('timeout', 3600)))
             meta.append((c, w, out, sos))
     # extra engines (fuzz, consteval) are plugged in by checks.py through 'extra'
@@ -239,12 +249,12 @@ def check(prop, tier):
         for k, v in r['maxima'].items(): c['maxima'][k] = max(c['maxima'].get(k, v), v)
         if r['note'] and r['note'] not in c['notes']: c['notes'].append(r['note'])
         c['samples'] += r['samples'][:max(1, 12 // max(1, len([x for x in results if x['clause'] == r['clause']])))]
-        c['_hashes'].append(r['_out'] + '.hashes')
+        c['_hashes'].append(r['_out'] + '.hashes'); c['_bulk'] = c.get('_bulk', 0) + r.get('distinct_bulk', 0)
     total_eval = 0; total_dn = 0; samples = []
     for cid, c in clauses.items():
         hs = c.pop('_hashes')
         d = run([exe, 'merge'] + hs).stdout.strip()
-        c['distinct_nontrivial'] = int(d) if d.isdigit() else 0
+        c['distinct_nontrivial'] = (int(d) if d.isdigit() else 0) + c.pop('_bulk', 0)
         total_eval += c['evaluations']; total_dn += c['distinct_nontrivial']
         pick = [s for s in c['samples'] if s['nontrivial']][:4] + [s for s in c['samples'] if not s['nontrivial']][:2]
         samples += pick; c['samples'] = c['samples'][:6]
@@ -268,7 +278,7 @@ def check(prop, tier):
     with open(os.path.join(ROOT, 'evidence', prop + '.json'), 'w') as f: json.dump(ev, f, indent=1)
 
     # ---- generator self-test: floors on classes (a harness bug if violated, not a violation)
-    for cid, floors in spec.get('floors', {}).items():
+    for cid, floors in ({} if violations else spec.get('floors', {})).items():
         c = clauses.get(cid)
         if not c or not c['evaluations']: harness_errors.append('clause %s produced no cases' % cid); continue
         for cls, frac in floors.items():
